@@ -231,7 +231,7 @@ func init() {
 		return []CaseSet{genEveryEntry(r), genSingleField(r, stride)},
 			"every (message, field) entry of the compiled-in profile with its exact base type and size in both byte orders and four payloads, in a file type that hosts the message (the dump shows which struct field changed and to what); plus the single-field definition sweep; the tables themselves are regenerated by reflection and re-checked by the kernel (gen_wf); every (message, field number) shared with the newest bundled SDK workbook must designate the struct field of the workbook's name and type", true
 	}
-	propPost["C15"] = func(res *RunResult) { postNoPanic(res); sdkAssignment(res); sdkSnapshot(res); constructorInvalids(res) }
+	propPost["C15"] = func(res *RunResult) { postNoPanic(res); sdkAssignment(res); sdkSnapshot(res); constructorInvalids(res); containersKnown(res) }
 }
 
 func postC10(res *RunResult) {
@@ -397,6 +397,20 @@ func postC11(res *RunResult) {
 		} else {
 			firstDelivery[k] = dval{dr.dump, dr.tag, c, res.Stats.impl[i]}
 		}
+		// the File returned with an error holds no more messages than there are complete data records
+		// in the bytes given (the first of them is the file_id record, which the File always shows)
+		if dr.tag != "ok" && dc.entry == "decode" && !strings.Contains(dr.dump, "##") {
+			paths, _ := flattenMsgs(dr.dump)
+			nonI := 0
+			for _, p := range paths {
+				if p != "I" {
+					nonI++
+				}
+			}
+			if complete := completeDataRecords(dc.data); nonI > 0 && nonI > complete-1 {
+				addViolation(res, c, res.Stats.impl[i], fmt.Sprintf("the File returned with the error holds %d messages besides file_id, but only %d data records are complete in the bytes read", nonI, complete))
+			}
+		}
 		// generic oracle: whatever was cut, an entry point that reports success must have found a
 		// complete frame (decode/integ/chained) inside the bytes it was given
 		if dr.tag == "ok" {
@@ -428,6 +442,12 @@ func postC11(res *RunResult) {
 				if len(dc.data) < 12 || len(dc.data) < int(dc.data[0]) {
 					addViolation(res, c, res.Stats.impl[i], "success on a stream cut inside the header")
 				}
+			case "headerfid":
+				// success requires the header, the first definition and the whole first data record
+				if end, ok := fileIdEnd(dc.data); !ok || len(dc.data) < end {
+					addViolation(res, c, res.Stats.impl[i], "DecodeHeaderAndFileID reports success on a stream cut before the end of the file_id record")
+				}
+
 			}
 		}
 	}
@@ -606,7 +626,7 @@ func genOptionSets(r *rng, n int) CaseSet {
 			k.badDefs = 3
 		}
 		k.records = 1 + r.intn(40)
-		data := frame(randomStream(r, k), defaultFrame())
+		data := frame(randomStream(r, k), randFrame(r))
 		spec := "-"
 		switch r.intn(5) {
 		case 0: // cut part-way
